@@ -439,3 +439,70 @@ for _c in CONTRACTS:
 
 from contracts.c12_merge import CONTRACTS as _MERGE
 CONTRACTS.extend(_MERGE)
+
+
+# ------------------------------------------------------------------ Molecule.subgraph: which interactions the part keeps
+SGType = TKey('SGType')                                     # interaction types (strings; abstract here: z3 strings under quantifiers hang)
+SGInter = TMap(SGType, TSeq(IT))
+SPEC_SG = {
+    'wf': "lambda inter, nodes: forall(lambda t, i, a: implies(t in inter and 0 <= i and i < len(inter[t]) and 0 <= a "
+          "and a < len(inter[t][i].atoms), inter[t][i].atoms[a] in nodes), SGType, TInt, TInt)",
+    'allin': "lambda it: forall(lambda a: implies(0 <= a and a < len(it.atoms), it.atoms[a] in NODES))",
+}
+# the first Q interactions of the list W (of type T) have been dealt with: the part's list of that type holds exactly those whose
+# atoms are all in the part, in the same order (src: where an interaction of the part comes from; pos: where one of the whole went);
+# the part has no list for a type of which it keeps nothing
+def _kept(T, W, Q, src, pos):
+    return [x.format(T=T, W=W, Q=Q, src=src, pos=pos) for x in (
+        "({T} in SUB) == (len({src}) > 0) and implies({T} in SUB, len(SUB[{T}]) == len({src}))",
+        "forall(lambda p: implies(0 <= p and p < len({src}), 0 <= {src}[p] and {src}[p] < {Q} and SUB[{T}][p] == {W}[{src}[p]] and allin({W}[{src}[p]])))",
+        "forall(lambda p, r: implies(0 <= p and p < r and r < len({src}), {src}[p] < {src}[r]))",
+        "forall(lambda q: implies(0 <= q and q < {Q} and allin({W}[q]), q in {pos} and 0 <= {pos}[q] and {pos}[q] < len({src}) and {src}[{pos}[q]] == q))")]
+
+
+def _done_types(I):
+    return ["forall(lambda t: implies(t in SELF and posof(SELF, t) < %s, t in g_srcs and t in g_poss and (%s)), SGType)" % (I, x)
+            for x in _kept('t', 'SELF[t]', 'len(SELF[t])', 'g_srcs[t]', 'g_poss[t]')]
+
+
+def setup_sg(cx):
+    inter = cx.val('interactions', SGInter)
+    cx.spec_env['SELF'] = inter
+    nodes = cx.val('nodes', TSet(Key))
+    cx.spec_env['NODES'] = nodes
+    sub_inter = cx.box('sub_interactions', SGInter)
+    sub_inter.default = lambda e: Box(TSeq(IT))             # defaultdict(list)
+    cx.heap('SUB', sub_inter)
+    return dict(self=Obj('Molecule', interactions=inter), nodes=nodes, subgraph=Obj('Molecule', interactions=sub_inter))
+
+
+subgraph_interactions = FunctionContract(
+    F, 'Molecule.subgraph', 'C12', short='Molecule.subgraph[interactions]', setup=setup_sg, spec_defs=SPEC_SG, spec_env=dict(SGType=SGType),
+    region=dict(start="for interaction_type, interactions in self.interactions.items():", end="return subgraph"),
+    locals=dict(g_srcs=TMap(SGType, TSeq(TInt)), g_poss=TMap(SGType, TMap(TInt, TInt)), g_s=TSeq(TInt), g_p=TMap(TInt, TInt)),
+    requires=["len(old(SUB)) == 0"],
+    ghost_at={'entry': "g_srcs = {}\ng_poss = {}"},
+    ensures=(
+        # the part keeps, type by type and in order, exactly the interactions whose atoms all belong to it - so every atom of
+        # every interaction of the part is an atom of the part (the class invariant of the new molecule)
+        _done_types('len(SELF)') + ["forall(lambda t: implies(t in SUB, t in SELF), SGType)", "wf(SUB, NODES)"]),
+    modifies=['SUB'],
+    loops={
+        'L1': LoopSpec(inv=_done_types('_i') + [
+            "forall(lambda t: implies(t in SUB, t in SELF and posof(SELF, t) < _i), SGType)",
+            "wf(SUB, NODES)"],
+            modifies=['SUB', 'g_srcs', 'g_poss'],
+            ghost_end="g_srcs[interaction_type] = g_s\ng_poss[interaction_type] = g_p"),
+        'L1.1': LoopSpec(inv=[
+            "interaction_type in SELF and posof(SELF, interaction_type) == _iL1"] +
+            _kept('interaction_type', 'interactions', '_i', 'g_s', 'g_p') + [
+            "forall(lambda t: implies(t != interaction_type, (t in SUB) == (t in g_S0) and implies(t in SUB, SUB[t] == g_S0[t])), SGType)"],
+            modifies=['SUB', 'g_s', 'g_p'], locals=dict(g_n0=TInt, g_S0=SGInter),
+            ghost_init="g_s = []\ng_p = {}\ng_S0 = dict(SUB)",
+            ghost_pre="g_n0 = len(g_s)",
+            ghost_end="if interaction_type in SUB and len(SUB[interaction_type]) > g_n0:\n    g_s.append(_i)\n    g_p[_i] = g_n0"),
+    },
+    canary=[("if all(atom in nodes for atom in interaction.atoms):", "if any(atom in nodes for atom in interaction.atoms):"),
+            ("subgraph.interactions[interaction_type].append(interaction)", "subgraph.interactions[interaction_type] = [interaction]")],
+)
+CONTRACTS.append(subgraph_interactions)
